@@ -23,6 +23,8 @@ THEOREMS = [
     ("EG.props.C04", "C04_checker_sound_history"),
     ("EG.props.C04", "C04_checker_sound_concurrent"),
     ("EG.props.C04", "C04_checker_sound_list"),
+    ("EG.props.C04", "C04_chain_choice_depends_only_on_own_key"),
+    ("EG.props.C04", "C04_checker_sound_chain"),
 ]
 _FILES = ["harness/proxy/zz_verif_c04_test.go", "harness/proxy/zz_verif_c04_watch_test.go"]
 HARNESSES = [
@@ -31,12 +33,12 @@ HARNESSES = [
     dict(name="conc", pkg="pkg/filters/proxy", files=_FILES,
          run="TestVerifC04Conc", groups=["rrc", "swap"], timeout=900, share=0.04, race=True),
     dict(name="watch", pkg="pkg/filters/proxy", files=_FILES,
-         run="TestVerifC04Watch", groups=["watch", "retry"], timeout=900, share=0.2),
+         run="TestVerifC04Watch", groups=["watch", "retry", "chain"], timeout=900, share=0.3),
 ]
 GROUPS = {"lb": "(check_lb pinned)", "pool": "(check_pool pinned)", "rrc": "check_rrc", "swap": "check_swap",
-          "watch": "(check_watch pinned)", "retry": "(check_retry pinned)"}
+          "watch": "(check_watch pinned)", "retry": "(check_retry pinned)", "chain": "(check_chain pinned)"}
 EXPLAIN = {"lb": "(explain_lb pinned)", "pool": "(explain_pool pinned)", "rrc": "explain_rrc", "swap": "explain_swap",
-           "watch": "(explain_watch pinned)", "retry": "(explain_retry pinned)"}
+           "watch": "(explain_watch pinned)", "retry": "(explain_retry pinned)", "chain": "(explain_chain pinned)"}
 CASES = {"quick": 600, "thorough": 12000}
 RULE = ("cases: lb = policy x weight vector (all zero / all positive / mixed / single / out of range) x request sequence "
         "(few distinct clients and header values, counter start incl. 2^32 and 2^63 boundaries); pool = Proxy built through "
@@ -44,7 +46,8 @@ RULE = ("cases: lb = policy x weight vector (all zero / all positive / mixed / s
         "selections on one roundRobin balancer; swap = selections concurrent with list replacement; "
         "watch = real watchServers driven through the ServiceRegistry controller by a registry double whose content changes between the "
         "initial listing, the watcher's priming listing and later events; retry = a retried request whose list is replaced while an "
-        "attempt is in flight. "
+        "attempt is in flight; chain = ONE request object through 2-3 balancers with different hash keys (LoadBalancer level, Proxy filters "
+        "in sequence, mirror pool next to main pool), requests sharing a header value but differing in client address and vice versa. "
         "non-trivial = at least one selection; class = policy(1..5) + flags (empty list 8, one server 16 / discovery used 8, "
         "503 seen 16, panic seen 32, mixed weights or fallback to static 64, counter near 2^63 128); "
         "distinct = distinct (group, input) hashes among non-trivial cases")
@@ -168,6 +171,15 @@ def encode(c):
                    y_at=Z(i["at"]), y_max=Nat(i["max"]), y_failing=L([S(u) for u in failing]),
                    y_hname=S(rq["hname"]), y_hval=S(rq["hval"]), y_key=S(o.get("key", "")),
                    y_sends=L([S(u) for u in o.get("sends") or []]), y_status=Z(o["status"]), y_res=S(o["result"]))
+    if g == "chain":
+        stages = i.get("stages") or []
+        reqs = []
+        for rq, ks, xs in zip(i.get("reqs") or [], o.get("keys") or [], o.get("idxs") or []):
+            reqs.append(T(S(rq["a"]), S(rq["b"]), L([T(S(k), Z(x)) for k, x in zip(ks, xs)])))
+        if o["valid"] and len(reqs) != len(i.get("reqs") or []):
+            reqs.append(T(S(""), S(""), L([])))
+        return Rec(h_valid=B(o["valid"]), h_stages=L([T(S(st["policy"]), S(st["hkey"]), Z(st["n"])) for st in stages]),
+                   h_reqs=L(reqs))
     raise ValueError(g)
 
 
@@ -209,6 +221,11 @@ def distribution(cases):
             d["watch_late_register"] = d.get("watch_late_register", 0) + bool(i.get("late"))
             d["watch_rereg"] = d.get("watch_rereg", 0) + sum(1 for st in i.get("steps") or [] if st.get("kind") == "rereg")
             d["selections"] += len(o.get("picks") or [])
+        elif g == "chain":
+            d["chain_levels"] = d.get("chain_levels", {})
+            lv = i["level"] + ("/" + i["order"] if i["level"] == "mirror" else "")
+            d["chain_levels"][lv] = d["chain_levels"].get(lv, 0) + 1
+            d["selections"] += len(i.get("reqs") or []) * len(i.get("stages") or [])
         elif g == "retry":
             d["retry_sends"] = d.get("retry_sends", 0) + len(o.get("sends") or [])
             d["retry_replaced"] = d.get("retry_replaced", 0) + bool(o.get("replaced"))
@@ -234,6 +251,18 @@ def shrink_candidates(inp, grp):
                 cand = dict(inp)
                 cand.pop(k)
                 yield cand
+        return
+    if grp == "chain":
+        xs = inp.get("reqs") or []
+        n = len(xs)
+        k = n // 2
+        while k >= 1:
+            for st in range(0, n, k):
+                cand = dict(inp)
+                cand["reqs"] = xs[:st] + xs[st + k:]
+                if len(cand["reqs"]) >= 2:
+                    yield cand
+            k //= 2
         return
     if grp == "retry":
         if inp.get("max", 1) > 2:
